@@ -402,6 +402,21 @@ def scan_histories():
                    "shape": name}
 
 
+def readout_data_histories():
+    """readouts that name a data set, and a readout that names such a readout (since `fix: readouts can name data sets`
+    the readout pass runs on `data | args`); the data set removed / replaced afterwards"""
+    ro = [["add_readout", "rd", fn(["dd", "x"], ["+", A(0), A(1)])], ["add_readout", "rd2", fn(["rd", "dd"], ["*", A(0), A(1)])]]
+    fl = [False] + [True] * 8
+    qs = [["q", "argsro", ["2", "3", "1"], "1"], ["q", "argsf", None, "0", fl], ["q", "argstc", ROWS, fl],
+          ["q", "argnames", fl], ["q", "rhs", None, "0"]]
+    for mid in ([], [["update_data", "dd", "7"]], [["remove_data", "dd"]], [["remove_data", "dd"], ["add_parameter", "dd", V(2)]],
+                [["remove_readout", "rd"]]):
+        for q in (None, QUERIES[0]):
+            ops = ro + ([q] if q else []) + qs[:2] + mid + qs
+            yield {"ops": BASE + ops + BATTERY[-2:], "check_from": len(BASE), "stratum": "readoutdata",
+                   "shape": f"readoutdata:{mid[0][0] if mid else 'none'}"}
+
+
 def copy_histories():
     """deep copy / pickle round trip of a model with and without a filled cache, then an edit of the copy and queries:
     the copy answers like a fresh model with ITS content, the original keeps its own, `==` ignores the cache"""
